@@ -12,7 +12,8 @@ rm -rf "$SCRATCH"; mkdir -p "$SCRATCH/out"
 git -C /repo worktree prune
 git -C /repo worktree add -q --detach "$SCRATCH/wt" HEAD || exit 2
 cp -r /verif/harness "$SCRATCH/harness"; rm -rf "$SCRATCH/harness/target"
-sed -i "s|may = { path = \"/repo\" }|may = { path = \"$SCRATCH/wt\" }|" "$SCRATCH/harness/Cargo.toml"
+sed -i "s|path = \"/repo\"|path = \"$SCRATCH/wt\"|" "$SCRATCH/harness/Cargo.toml"
+grep -q "$SCRATCH/wt" "$SCRATCH/harness/Cargo.toml" || { echo "harness copy still points at /repo"; exit 2; }
 sed -i "s|target-dir = \"/verif/target-hooks\"|target-dir = \"$SCRATCH/target-hooks\"|" "$SCRATCH/harness/.cargo/config.toml"
 LIST="$@"; [ -z "$LIST" ] && LIST=$(ls /verif/selftest/mutants/*.diff)
 {
@@ -24,12 +25,17 @@ echo "|---|---|---|---|---|"
 for P in $LIST; do
   ID=$(basename "$P" .diff); PROP=${ID%%-*}
   git -C "$SCRATCH/wt" checkout -q -- . ; git -C "$SCRATCH/wt" apply "$P" 2>/dev/null || { echo "| $ID | $PROP | patch does not apply | - | - |" >> "$OUT"; continue; }
-  (cd "$SCRATCH/wt" && timeout 300 cargo test --workspace --no-fail-fast --offline > "$SCRATCH/out/$ID.suite" 2>&1); [ $? = 124 ] && echo "error: suite timed out (hang)" >> "$SCRATCH/out/$ID.suite"
+  (cd "$SCRATCH/wt" && timeout 300 cargo test --workspace --no-fail-fast --offline > "$SCRATCH/out/$ID.suite" 2>&1); [ $? = 124 ] && echo "SUITE-TIMEOUT" >> "$SCRATCH/out/$ID.suite"
   PASSED=$(grep -E "^test result: ok" "$SCRATCH/out/$ID.suite" | awk '{s+=$4} END {print s+0}')
   FAILED=$(grep -E "^test result:" "$SCRATCH/out/$ID.suite" | awk '{s+=$6} END {print s+0}')
-  if grep -q "^error" "$SCRATCH/out/$ID.suite"; then SUITE="does not compile"; elif [ "$FAILED" != "0" ]; then SUITE="FAILS ($FAILED failed)"; else SUITE="passes ($PASSED)"; fi
+  if grep -q "^SUITE-TIMEOUT" "$SCRATCH/out/$ID.suite"; then SUITE="hangs (300 s timeout)"; elif grep -q "^error\(\[E[0-9]*\]\)\?:" "$SCRATCH/out/$ID.suite" && [ "$PASSED" = "0" ]; then SUITE="does not compile"; elif [ "$FAILED" != "0" ]; then SUITE="FAILS ($FAILED failed)"; else SUITE="passes ($PASSED)"; fi
   (cd "$SCRATCH/harness" && cargo build --offline > "$SCRATCH/out/$ID.build" 2>&1) || { echo "| $ID | $PROP | $SUITE | harness build failed | - |" >> "$OUT"; continue; }
   MAYVERIF_OUT="$SCRATCH/out" MAYVERIF_TMP="$SCRATCH/out" "$SCRATCH/target-hooks/debug/mayverif" check "$PROP" --tier quick > "$SCRATCH/out/$ID.check" 2> "$SCRATCH/out/$ID.err"; RC=$?
+  if [ $RC = 0 ] && [ "$PROP" = "C01" ]; then
+    # C01 quantifies over work_steal on and off (./check C01 runs both builds)
+    (cd "$SCRATCH/harness" && CARGO_TARGET_DIR="$SCRATCH/target-hooks-nosteal" cargo build --offline --no-default-features >> "$SCRATCH/out/$ID.build" 2>&1) &&
+    { MAYVERIF_OUT="$SCRATCH/out" MAYVERIF_TMP="$SCRATCH/out" "$SCRATCH/target-hooks-nosteal/debug/mayverif" check "$PROP" --tier quick >> "$SCRATCH/out/$ID.check" 2>> "$SCRATCH/out/$ID.err"; RC=$?; }
+  fi
   CL=$(grep -E "^--- " "$SCRATCH/out/$ID.err" | awk '{print $3}' | sed 's/clause=//' | sort | uniq -c | sort -rn | head -3 | awk '{printf "%s x%s; ", $2, $1}')
   case $RC in 0) V="passes (exit 0)";; 1) V="**VIOLATION** (exit 1)";; *) V="machinery exit $RC";; esac
   echo "| $ID | $PROP | $SUITE | $V | $CL |" >> "$OUT"
